@@ -149,7 +149,7 @@ func extMap(exts []graphsync.ExtensionData) map[graphsync.ExtensionName]datamode
 func (f *FakeGS) Request(ctx context.Context, p peer.ID, root ipld.Link, selector ipld.Node, extensions ...graphsync.ExtensionData) (<-chan graphsync.ResponseProgress, <-chan error) {
 	id := graphsync.NewRequestID()
 	c := f.rec(&GSCall{Op: "request", ID: id, Peer: p, Exts: extMap(extensions)})
-	rq := &gsReq{id: id, peer: p, rc: make(chan graphsync.ResponseProgress), ec: make(chan error, 1)}
+	rq := &gsReq{id: id, peer: p, rc: make(chan graphsync.ResponseProgress), ec: make(chan error, 8)}
 	f.mu.Lock()
 	f.reqs[id] = rq
 	hook := f.outHookRaw
@@ -184,6 +184,24 @@ func (f *FakeGS) Complete(id graphsync.RequestID, err error) bool {
 	}
 	close(rq.ec)
 	return true
+}
+
+// ReportError delivers a NON-terminal error on an outgoing request's error channel (go-graphsync
+// reports e.g. RemoteMissingBlockErr this way and carries on); the request stays open.
+func (f *FakeGS) ReportError(id graphsync.RequestID, err error) bool {
+	f.mu.Lock()
+	rq := f.reqs[id]
+	if rq == nil || rq.closed {
+		f.mu.Unlock()
+		return false
+	}
+	f.mu.Unlock()
+	select {
+	case rq.ec <- err:
+		return true
+	default:
+		return false
+	}
 }
 
 func (f *FakeGS) stall() {
